@@ -150,11 +150,19 @@ class Analyzer:
         parameter symbols (so that the summary is reusable), constants stay."""
         a = f.node.args
         names = [p.arg for p in a.posonlyargs + a.args]
+        if a.vararg is not None or a.kwarg is not None or len(args) > len(names):
+            return None, None
         bound = dict(zip(names, args))
         bound.update(kwargs)
         nd = len(f.defaults)
         for p, d in zip(names[len(names) - nd:], f.defaults):
             bound.setdefault(p, d)
+        for p, d in zip(a.kwonlyargs, list(f.kwdefaults or []) + [None] * len(a.kwonlyargs)):  # keyword-only parameters are parameters too
+            names.append(p.arg)
+            if p.arg not in bound and a.kw_defaults[a.kwonlyargs.index(p)] is not None:
+                bound[p.arg] = d
+        if set(bound) - set(names):
+            return None, None
         sig, out = [], {}
         for p in names:
             if p not in bound:
